@@ -504,14 +504,27 @@ def run_case(ctx):
             specs = [pool[i] for i in idx]
             ctx.log(['compile_vforms', idx])
             ctx.count('op.compile_vforms')
-            inst.current = {'CustomAssembler%d' % k: {'spec': sp, 'od': False} for k, sp in enumerate(specs)}
-            res = ctx.call('compile_vforms', inst.mod.compile_vforms, [build(sp) for sp in specs])
+            # if the tree under test offers an on-demand mode for batches (signature introspection), use it too
+            bod = False
+            try:
+                import inspect
+                has_od = 'on_demand' in inspect.signature(inst.mod.compile_vforms).parameters
+            except (TypeError, ValueError):
+                has_od = False
+            if has_od and rq.choice(2) and all(isinstance(text_of(sp, True), str) for sp in specs):
+                bod = True
+                ctx.count('op.compile_vforms.on_demand')
+            inst.current = {'CustomAssembler%d' % k: {'spec': sp, 'od': bod} for k, sp in enumerate(specs)}
+            if bod:
+                res = ctx.call('compile_vforms', inst.mod.compile_vforms, [build(sp) for sp in specs], on_demand=True)
+            else:
+                res = ctx.call('compile_vforms', inst.mod.compile_vforms, [build(sp) for sp in specs])
             inst.current = None
             if res is RAISED():
                 return
             ctx.check(len(res) == len(specs), 'batch-size', '', sig('batch'))
             for cls, sp in zip(res, specs):
-                check_returned(cls, sp, False, 'compile_vforms')
+                check_returned(cls, sp, bod, 'compile_vforms')
             continue
         i = valid[rq.choice(len(valid))]
         od = bool(rq.choice(2))
